@@ -6,6 +6,7 @@ import Req.Client.CompressAttempts
 import Req.Client.CompressFormats
 import Req.Client.CompressClose
 import Req.Client.CompressZstd
+import Req.Lemmas.C14Auto
 /-! Driver lanes of C14. -/
 namespace Req.Driver.L.C14
 open Req.Proto Req.Compress
@@ -189,17 +190,31 @@ def laneEnc : List String → String
     | _, _ => "bad-op"
   | _ => "bad-op"
 
+/-- Read the incremental reader of an automaton (`Auto.reader`: a `Read` consumes only the input
+it needs) with the given buffer sizes in turn until a `Read` reports the end. -/
+def drainAuto (A : Req.Compress.Auto) (wire : Bytes) (fin : Term) (sizes : List Nat) : Bytes × Term :=
+  let R := Req.Compress.Auto.reader A
+  let limit := (wire.length + 8) * sizes.length
+  let p := phase1 R.read sizes limit 0 ((A.init, wire, fin) : R.σ) []
+  (p.2.1, p.2.2.getD (.err 98))
+
 open Req.Compress.Fmt in
-/-- `c14dec <gzip|deflate> <wire> <fin>` → `data=<hex> t=<end>`: what the reader of that coding
-delivers for a body `wire` that ends with `fin`; `unmodelled` when the stream leaves the
-modelled subset (a Huffman-coded block). -/
+/-- `c14dec <gzip|deflate|zstd> <wire> <fin> [<sizes>]` → `data=<hex> t=<end>`: what the reader of
+that coding delivers for a body `wire` that ends with `fin`; with `sizes` (gzip, deflate) the
+model's INCREMENTAL reader is read with those buffer sizes in turn (zero-length reads included)
+instead of taking the whole-input meaning — by `read_size_independent` the two agree;
+`unmodelled` when the stream leaves the modelled subset (a Huffman-coded / RLE / compressed block). -/
 def laneDec : List String → String
-  | [fmt, wire, fin] =>
+  | fmt :: wire :: fin :: rest =>
     match decodeHex wire, parseTerm fin with
     | some w, some f =>
+      let sizes : List Nat := match rest with
+        | [s] => ((decodeNatList s).getD []).filter (fun _ => true)
+        | _ => []
+      let usable := !sizes.isEmpty && sizes.any (· > 0)
       let r : Option (Bytes × Term) :=
-        if fmt == "gzip" then some ((gzip ieee).mean f w gInit)
-        else if fmt == "deflate" then some (deflate.mean f w .hdr)
+        if fmt == "gzip" then some (if usable then drainAuto (gzip ieee) w f sizes else (gzip ieee).mean f w gInit)
+        else if fmt == "deflate" then some (if usable then drainAuto deflate w f sizes else deflate.mean f w .hdr)
         else if fmt == "zstd" then some (Req.Compress.Zstd.zmean Req.Compress.Zstd.xxh f w)
         else none
       match r with
@@ -208,7 +223,6 @@ def laneDec : List String → String
         if t == errUnmodelled then "unmodelled" else "data=" ++ encodeHex d ++ " t=" ++ t.show
     | _, _ => "bad-op"
   | _ => "bad-op"
-
 
 /-- `c14close <alg> <ops: r|c, comma separated>` → `body=<times the underlying Body.Close was
 called> waits=<did any Close wait for the body>` after the reads and closes, on a fresh wrapper. -/
